@@ -21,8 +21,8 @@ all binary64) times, recordings of any length and any positive sample width.
 | rejection | `both_lists_rejected`, `out_of_range_rejected` (both bounds, any order), `nonpositive_interval_rejected`, `negative_time_regression` |
 | not rejected (disjointness is assumed, not enforced) | `overlap_keep_counterexample`, `nested_delete_counterexample`, `nested_out_of_range_counterexample` |
 | generators | `silence_length`, `silence_zero`, `sine_length` |
-| extractSubwav | `extract_spec`, `extract_outside`, `extract_eq_getSubwav` |
-| splitAudioOnTier | `split_one_per_entry`, `split_names_nodup`, `split_frames`, `split_entries_inside`, `split_entry_outside`, `split_tg_span`, `split_tg_label` |
+| extractSubwav | `extract_spec` (every `s ≤ e`, clamped into the recording), `extract_reversed` (ArgumentError), `extract_outside`, `extract_eq_getSubwav` |
+| splitAudioOnTier | `split_one_per_entry`, `split_names_nodup`, `split_frames`, `split_entry_outside`, `split_tg_span`, `split_tg_label` |
 -/
 open Audio Extract
 namespace C17
